@@ -781,4 +781,140 @@ Proof.
     + apply vr_vsub; [apply vr_gather; apply M4|apply vr_vscale_l; [exact EF|apply vr_gather; exact VL]].
     + apply vr_vadd; [apply vr_gather; apply M4|apply vr_vscale_l; [exact EF|apply vr_gather; exact VL]].
 Qed.
+
+(* ------------------------------------------------------------------ P,H / P,S *)
+Lemma set_PH_sim cf ent P H m m' : mr m m' -> rmw (set_PH cf orc ent P H m) (set_PH cf orc' ent P (k * H) m').
+Proof.
+  intros M. unfold set_PH. pose proof (setup_sim cf _ _ (proj1 M)) as SS.
+  pose proof OS as (_ & _ & _ & OLl & OLh & _ & _ & OQ & _).
+  destruct (setup cf (ms m)) as [a c|a|e a] eqn:E1; destruct (setup cf (ms m')) as [a' c'|a'|e' a'] eqn:E2; try contradiction.
+  2:{ split; [reflexivity|apply mr_mset; assumption]. }
+  2:{ destruct SS as (-> & SA). split; [reflexivity|apply mr_mset; assumption]. }
+  destruct SS as (SA & C). destruct (setup_nz _ _ _ _ E1) as (NZV & NZ).
+  assert (M1 : mr (mset m (with_P a P)) (mset m' (with_P a' P))) by (apply mr_mset; [exact M|apply sr_with_P; exact SA]).
+  pose proof C as (_ & _ & FMs & FL & FH & FV & _ & EN). rewrite EN.
+  destruct (cN c =? 0).
+  { assert (ET0 : sT (ms (mset m' (with_P a' P))) = sT (ms (mset m (with_P a P)))) by (destruct M1 as ((_ & _ & _ & A & _) & _); exact A).
+    rewrite ET0.
+    destruct (call_solveT_sim _ _ H (sT (ms (mset m (with_P a P)))) P M1) as (M2 & ET).
+    destruct (call_solveT orc _ H _ P) as [m2 t]. destruct (call_solveT orc' _ (k * H) _ P) as [m2' t']. cbn [fst snd] in *.
+    cbn [rmw]. apply mrw_with_T; assumption. }
+  destruct (cN c =? 1); [cbn [rmw]; apply ph_chemical_sim; assumption|].
+  destruct (call_bubble_sim c c' _ _ C M1) as (M2 & EB).
+  destruct (call_bubble orc c _) as [m2 [Tb0 yb]]. destruct (call_bubble orc' c' _) as [m2' r']. cbn [fst snd] in *. subst r'.
+  rewrite (nzb_qr _ _ FL), OLl.
+  set (Tb := if nzb (Flight c) then c_09 * Tb0 + c_01 * o_lim_light orc else Tb0).
+  assert (M3 : mr (mset m2 (all_liq c (ms m2))) (mset m2' (all_liq c' (ms m2'))))
+    by (apply mr_mset; [exact M2|apply sr_all_liq; [exact C|apply M2]]).
+  destruct (call_xH_sim _ _ Tb P M3) as (M4 & HB).
+  destruct (call_xH orc _ Tb P) as [m4 Hb]. destruct (call_xH orc' _ Tb P) as [m4' Hb']. cbn [fst snd] in *.
+  rewrite (qleb_qr _ _ _ _ (qr_sub _ _ _ _ (qr_kH H) HB) qr_0).
+  destruct (qleb (H - Hb) 0) eqn:C1.
+  { destruct (call_solveT_sim _ _ H Tb P M4) as (M5 & ET).
+    destruct (call_solveT orc m4 H Tb P) as [m5 t]. destruct (call_solveT orc' m4' (k * H) Tb P) as [m5' t']. cbn [fst snd] in *.
+    cbn [rmw]. apply mrw_with_T; assumption. }
+  destruct (call_dew_sim c c' _ _ C M4) as (M5 & ED).
+  destruct (call_dew orc c m4) as [m5 [Td0 xd]]. destruct (call_dew orc' c' m4') as [m5' r']. cbn [fst snd] in *. subst r'.
+  rewrite (nzb_qr _ _ FH), OLh.
+  destruct (if qleb Td0 Tb then (Tb + (1 # 2), Td0 - (1 # 2)) else (Td0, Tb)) as [Td1 Tb1].
+  set (Td := if nzb (Fheavy c) then c_09 * Td1 + c_01 * o_lim_heavy orc else Td1).
+  assert (M6 : mr (mset m5 (all_vap c (ms m5))) (mset m5' (all_vap c' (ms m5'))))
+    by (apply mr_mset; [exact M5|apply sr_all_vap; [exact C|apply M5]]).
+  destruct (call_xH_sim _ _ Td P M6) as (M7 & HD).
+  destruct (call_xH orc _ Td P) as [m7 Hd]. destruct (call_xH orc' _ Td P) as [m7' Hd']. cbn [fst snd] in *.
+  rewrite (qleb_qr _ _ _ _ qr_0 (qr_sub _ _ _ _ (qr_kH H) HD)).
+  destruct (qleb 0 (H - Hd)) eqn:C2.
+  { destruct (call_solveT_sim _ _ H Td P M7) as (M8 & ET).
+    destruct (call_solveT orc m7 H Td P) as [m8 t]. destruct (call_solveT orc' m7' (k * H) Td P) as [m8' t']. cbn [fst snd] in *.
+    cbn [rmw]. apply mrw_with_T; assumption. }
+  apply qleb_false in C1. apply qleb_false in C2.
+  assert (EV0 : (k * H - Hb') / (Hd' - Hb') == (H - Hb) / (Hd - Hb))
+    by (apply (qr_div (H - Hb) (Hd - Hb)); [apply qr_sub; [apply qr_kH|exact HB]|apply qr_sub; assumption|lra]).
+  assert (EV : (if ent then (k * H - Hb') / (Hd' - Hb') else Qabs ((k * H - Hb') / (Hd' - Hb'))) ==
+               (if ent then (H - Hb) / (Hd - Hb) else Qabs ((H - Hb) / (Hd - Hb))))
+    by (destruct ent; [exact EV0|rewrite EV0; reflexivity]).
+  rewrite (refresh_K_sim c c' _ _ yb xd C NZV EV).
+  destruct (refresh_K_raises c _ yb xd); [split; [reflexivity|exact M7]|].
+  rewrite (qzerob_qr _ _ FMs).
+  destruct (qzerob (Fmass c)) eqn:ZM; [split; [reflexivity|exact M7]|]. apply qzerob_false in ZM.
+  assert (EH : k * H / Fmass c' == H / Fmass c) by (apply (qr_div H (Fmass c)); [apply qr_kH|exact FMs|exact ZM]).
+  assert (M8 : mr (if ent then fst (herr_eval orc c Tb1 P m7) else m7) (if ent then fst (herr_eval orc' c' Tb1 P m7') else m7'))
+    by (destruct ent; [apply herr_eval_sim; assumption|exact M7]).
+  set (m8 := if ent then fst (herr_eval orc c Tb1 P m7) else m7) in *.
+  set (m8' := if ent then fst (herr_eval orc' c' Tb1 P m7') else m7') in *.
+  destruct (herr_eval_sim c c' Tb1 P m8 m8' C ZM M8) as (M9 & EHb).
+  destruct (herr_eval orc c Tb1 P m8) as [m9 hb]. destruct (herr_eval orc' c' Tb1 P m8') as [m9' hb']. cbn [fst snd] in *.
+  assert (B1 : qltb (k * H / Fmass c') hb' = qltb (H / Fmass c) hb) by (rewrite EH, EHb; reflexivity). rewrite B1.
+  cbn [rmw].
+  destruct (qltb (H / Fmass c) hb); [apply correct_sim; assumption|].
+  destruct (herr_eval_sim c c' Td P m9 m9' C ZM M9) as (M10 & EHd).
+  destruct (herr_eval orc c Td P m9) as [m10 hd]. destruct (herr_eval orc' c' Td P m9') as [m10' hd']. cbn [fst snd] in *.
+  assert (B2 : qltb hd' (k * H / Fmass c') = qltb hd (H / Fmass c)) by (rewrite EH, EHd; reflexivity). rewrite B2.
+  destruct (qltb hd (H / Fmass c)); [apply correct_sim; assumption|].
+  destruct M10 as (S10 & K10). rewrite K10, OQ.
+  destruct (o_iq orc (mk m10)) as [pts Tx].
+  apply correct_sim; [exact C|]. apply evals_h_sim; [exact C|exact ZM|apply mr_tick; split; assumption].
+Qed.
+
+(* ------------------------------------------------------------------ VLE.__call__ *)
+Definition scale_st (s : vst) : vst := mkst (vscale k (liq s)) (vscale k (vap s)) (map (vscale k) (oth s)) (sT s) (sP s).
+Definition scale_spec (sp : spec) : spec :=
+  match sp with
+  | SpTH T H => SpTH T (k * H) | SpTS T Sv => SpTS T (k * Sv)
+  | SpPH P H => SpPH P (k * H) | SpPS P Sv => SpPS P (k * Sv)
+  | sp => sp
+  end.
+
+Lemma sr_scale_st s : sr s (scale_st s).
+Proof.
+  unfold sr, scale_st. cbn [liq vap oth sT sP]. repeat split; try apply vr_vscale.
+  induction (oth s); simpl; constructor; auto. apply vr_vscale.
+Qed.
+
+Lemma rmw_catch r r' f : (forall s s', srw s s' -> srw (f s) (f s')) -> rmw r r' -> rmw (catch_noeq r f) (catch_noeq r' f).
+Proof.
+  intros F. destruct r as [a|e a], r' as [a'|e' a']; cbn [rmw catch_noeq]; try tauto.
+  intros (<- & A). destruct e; cbn [rmw]; try (split; [reflexivity|exact A]).
+  split; [apply F, sr_srw; apply A|apply A].
+Qed.
+Lemma srw_with_T s s' t : srw s s' -> srw (with_T s t) (with_T s' t).
+Proof. intros (A & B & C & D & E). repeat split; auto; try reflexivity. Qed.
+Lemma srw_with_P s s' p : srw s s' -> srw (with_P s p) (with_P s' p).
+Proof. intros (A & B & C & D & E). repeat split; auto; try reflexivity. Qed.
+
+Lemma vle_call_sim cf sp m m' : mr m m' -> rmw (vle_call cf orc sp m) (vle_call cf orc' (scale_spec sp) m').
+Proof.
+  intros M. destruct sp as [T P|T V|T H|T Sv|T x|T y|P V|P H|P Sv|P x|P y]; cbn [vle_call scale_spec].
+  - apply rmw_catch; [intros; apply srw_with_P, srw_with_T; assumption|apply rm_rmw, set_TP_sim; exact M].
+  - apply rmw_catch; [intros; apply srw_with_T; assumption|apply rm_rmw, set_TV_sim; exact M].
+  - apply rm_rmw, set_TH_sim; exact M.
+  - apply rm_rmw, set_TH_sim; exact M.
+  - apply rm_rmw, set_xy_sim; exact M.
+  - apply rm_rmw, set_xy_sim; exact M.
+  - apply rmw_catch; [intros; apply srw_with_P; assumption|apply rm_rmw, set_PV_sim; exact M].
+  - apply rmw_catch; [intros; apply srw_with_P; assumption|apply set_PH_sim; exact M].
+  - pose proof (set_PH_sim cf true P Sv m m' M) as R1.
+    destruct (set_PH cf orc true P Sv m) as [a|e a]; destruct (set_PH cf orc' true P (k * Sv) m') as [a'|e' a']; cbn [rmw] in R1; try contradiction.
+    + exact R1.
+    + destruct R1 as (_ & M1). apply rmw_catch; [intros; apply srw_with_P; assumption|apply set_PH_sim; exact M1].
+  - apply rm_rmw, set_xy_sim; exact M.
+  - apply rm_rmw, set_xy_sim; exact M.
+Qed.
+
+(* the flash of the feed multiplied by k is the flash of the feed, multiplied by k *)
+Definition hom_result (r r' : vres vst) : Prop :=
+  match r, r' with
+  | VOk a, VOk b => srw a b
+  | VErr e _, VErr e' _ => e = e'
+  | _, _ => False
+  end.
+Lemma vle_homogeneous_lemma cf sp st : hom_result (vle cf orc sp st) (vle cf orc' (scale_spec sp) (scale_st st)).
+Proof.
+  unfold vle. assert (M : mr (mkm st 0) (mkm (scale_st st) 0)) by (split; [apply sr_scale_st|reflexivity]).
+  pose proof (vle_call_sim cf sp _ _ M) as R.
+  destruct (vle_call cf orc sp (mkm st 0)) as [a|e a]; destruct (vle_call cf orc' (scale_spec sp) (mkm (scale_st st) 0)) as [a'|e' a'];
+    cbn [rmw hom_result] in *; try contradiction.
+  - apply R.
+  - apply R.
+Qed.
 End Hom.
